@@ -102,7 +102,8 @@ struct C18 : Scenario {
         long nextload = 1;
         for (long i = 0; i < nops; i++) {
             double u = r.unit();
-            if (u < 0.25) { ops += ",L" + std::to_string(r.chance(0.3) ? r.range(0, nextload - 1) : nextload++); }
+            if (u < 0.2) { ops += ",L" + std::to_string(r.chance(0.3) ? r.range(0, nextload - 1) : nextload++); }
+            else if (u < 0.3) { ops += ",S" + std::to_string(r.range(0, (long)nb - 1)) + "." + std::to_string(r.range(0, 5)); }   // profile of ONE bunch replaced (setProjection(0,b,...)), the others untouched
             else if (u < 0.55) ops += full ? ",W" : ",C0";
             else if (u < 0.7) ops += ",P";
             else ops += r.pick(std::vector<std::string>{",C0", ",C1", ",C2", ",C3", ",C3", ",C2"});
@@ -138,6 +139,17 @@ struct C18 : Scenario {
             if (op.empty()) continue;
             shape += op[0];
             if (op[0] == 'L') { cur = atol(op.c_str() + 1); load_data(*ps, f.nx, f.nb, dseed, cur); prevop = op; continue; }
+            if (op[0] == 'S') {
+                unsigned b = (unsigned)atol(op.c_str() + 1) % f.nb; long which = atol(op.c_str() + op.find('.') + 1);
+                Rng pr(Rng::mix(dseed, 7000 + (uint64_t)which));
+                boost::multi_array<projection_t, 1> prof(boost::extents[f.nx]);
+                int kind = (int)pr.range(0, 2);
+                double c = pr.uniform(0.2, 0.8) * f.nx, w = pr.uniform(0.05, 0.3) * f.nx, amp = pr.uniform(0.1, 2);
+                for (unsigned x = 0; x < f.nx; x++) prof[x] = (projection_t)(kind == 0 ? amp * std::exp(-0.5 * std::pow((x - c) / w, 2)) : kind == 1 ? (std::fabs(x - c) < w ? amp : 0) : 0.0);   // kind 2: an empty bunch
+                ps->setProjection(0, b, prof);
+                o.probe("reach.single_bunch_profile_replaced");
+                prevop = op; continue;
+            }
             if (op[0] == 'W' && !f.full) continue;
             if (!prevop.empty() && prevop[0] != op[0]) mixed = true;
             // ---- operation on the object with history
@@ -150,6 +162,9 @@ struct C18 : Scenario {
             else field->updateCSR(fc);
             // ---- same single operation on a fresh object holding the same profile
             auto ps2 = std::make_shared<PhaseSpace>(*ps);
+            // (the copy carries the data; the profiles are handed over explicitly so that the fresh object sees the current profile
+            //  also when it was set per bunch and is not the projection of the data)
+            for (unsigned b = 0; b < f.nb; b++) { boost::multi_array<projection_t, 1> pb(ps->getProjection(0)[b]); ps2->setProjection(0, b, pb); }
             auto fresh = make_field(f, ps2, z);
             if (op[0] == 'W') fresh->wakePotential();
             else if (op[0] == 'P') fresh->padBunchProfiles();
